@@ -61,8 +61,13 @@ RouterFail(m) == /\ m \in net
                     ELSE /\ net' = net \ {m} /\ UNCHANGED log
                  /\ UNCHANGED orig
 
+LoseAny == \E m \in net : Lose(m)
+DeliverAny == \E m \in net : Deliver(m)
+RouterFailAny == \E m \in net : RouterFail(m)
 Next == \/ \E h \in Hosts, k \in Kinds : Originate(h, k)
-        \/ \E m \in net : Lose(m) \/ Deliver(m) \/ RouterFail(m)
+        \/ LoseAny
+        \/ DeliverAny
+        \/ RouterFailAny
 
 Progress == \E m \in net : Lose(m) \/ Deliver(m) \/ RouterFail(m)
 Spec == Init /\ [][Next]_vars /\ WF_vars(Progress)
